@@ -256,12 +256,104 @@ fn run_case(seed: u64, index: u64, interference: bool, rep: &mut Report) {
     if rep.samples.len() < 2 && n_undo > 1 && n_redo > 0 { rep.sample(json!({"case": index, "script": script})); }
 }
 
+
+// ---- flat scope, compared with the Coq model (coq/Crdt/Undo.v) after every action ----
+fn flat_content(doc: &yrs::Doc, tab: &mut std::collections::HashMap<String, u64>) -> String {
+    use yrs::{Array, Map};
+    let (ar, m) = (doc.get_or_insert_array(ROOT_ARRAY), doc.get_or_insert_map(ROOT_MAP));
+    let txn = doc.transact();
+    let mut tk = |s: String| -> u64 { let n = tab.len() as u64 + 1; *tab.entry(s).or_insert(n) };
+    let seq: Vec<String> = ar.iter(&txn).map(|v| format!("{:x}", tk(print_out(&v, &txn, 0)))).collect();
+    let mut es: Vec<(u64, u64)> = m.iter(&txn).map(|(k, v)| (key_tok(k), tk(print_out(&v, &txn, 0)))).collect();
+    es.sort();
+    format!("seq={} | map={}", if seq.is_empty() { "_".to_string() } else { seq.join(".") }, es.iter().map(|(k, v)| format!("{:x}:{:x}", k, v)).collect::<Vec<_>>().join(","))
+}
+fn key_tok(k: &str) -> u64 { match k { "k1" => 1, "k2" => 2, _ => 3 } }
+const FKEYS: [&str; 3] = ["k1", "k2", "κ3"];
+
+fn run_flat_case(seed: u64, index: u64, rep: &mut Report, model: &mut crate::model::Model) {
+    use yrs::{Array, Map};
+    let mut r = Rng::for_case(seed, 123, index);
+    let gc = r.chance(1, 2);
+    let a = Replica::new(1, DocCfg { gc, ..DocCfg::default() });
+    let clock = Arc::new(AtomicU64::new(10_000));
+    let ck = clock.clone();
+    let mut mgr: UndoManager<()> = UndoManager::with_options(Options { capture_timeout_millis: 500, timestamp: Arc::new(move || ck.load(Ordering::SeqCst)), ..Options::default() });
+    let (ar, m) = (a.doc.get_or_insert_array(ROOT_ARRAY), a.doc.get_or_insert_map(ROOT_MAP));
+    mgr.expand_scope(&a.doc, &ar); mgr.expand_scope(&a.doc, &m);
+    let explicit = r.chance(1, 2);
+    if explicit { mgr.include_origin("me"); }
+    let mut tab = std::collections::HashMap::new();
+    let mut script = vec![format!("flat scope=am gc={} explicit_origin={}", gc, explicit)];
+    let name = format!("f{}", index);
+    model.ask(&format!("U new {}", name));
+    let mut vtag = 0u64;
+    let mut n_undo = 0;
+    // one random call executed on the document and described for the model
+    let mut call = |txn: &mut yrs::TransactionMut, r: &mut Rng, tab: &mut std::collections::HashMap<String, u64>, sc: &mut Vec<String>, mc: &mut Vec<String>| {
+        let len = ar.len(txn);
+        match r.below(10) {
+            0..=3 => { let p = r.below(len as u64 + 1) as u32; vtag += 1; let v = yrs::Any::Number((vtag * 10) as f64); let n = tab.len() as u64 + 1; let t = *tab.entry(print_any(&v)).or_insert(n);
+                       ar.insert(txn, p, v); sc.push(format!("a.insert({p},#{t:x})")); mc.push(format!("i{}.{:x}", p, t)); }
+            4..=5 => { if len > 0 { let p = r.below(len as u64) as u32; ar.remove(txn, p); sc.push(format!("a.remove({p})")); mc.push(format!("d{}", p)); } }
+            6..=8 => { let k = *r.pick(&FKEYS); vtag += 1; let v = yrs::Any::Number((vtag * 10 + 1) as f64); let n = tab.len() as u64 + 1; let t = *tab.entry(print_any(&v)).or_insert(n);
+                       m.insert(txn, k, v); sc.push(format!("m.insert({k},#{t:x})")); mc.push(format!("s{:x}.{:x}", key_tok(k), t)); }
+            _ => { let k = *r.pick(&FKEYS); m.remove(txn, k); sc.push(format!("m.remove({k})")); mc.push(format!("r{:x}", key_tok(k))); }
+        }
+    };
+    for step in 0..r.range(6, 40) {
+        let choice = r.below(100);
+        let resp;
+        let impl_changed: Option<bool>;
+        if choice < 45 {
+            clock.fetch_add(1000, Ordering::SeqCst);
+            let mut sc = vec![]; let mut txns: Vec<String> = vec![];
+            for _ in 0..r.range(1, 3) {
+                let mut mc = vec![];
+                { let mut txn = if explicit { a.doc.transact_mut_with("me") } else { a.doc.transact_mut() }; for _ in 0..r.range(1, 3) { call(&mut txn, &mut r, &mut tab, &mut sc, &mut mc); } }
+                clock.fetch_add(1, Ordering::SeqCst); sc.push("|".into());
+                txns.push(if mc.is_empty() { "_".into() } else { mc.join(",") });
+            }
+            script.push(format!("step {{{}}}", sc.join("; ")));
+            resp = model.ask(&format!("U step {} {}", name, txns.join("|"))); impl_changed = None;
+        } else if choice < 55 {
+            let mut sc = vec![]; let mut mc = vec![];
+            { let mut txn = a.doc.transact_mut_with("other"); for _ in 0..r.range(1, 2) { call(&mut txn, &mut r, &mut tab, &mut sc, &mut mc); } }
+            script.push(format!("other-origin txn {{{}}}", sc.join("; ")));
+            resp = model.ask(&format!("U other {} {}", name, if mc.is_empty() { "_".into() } else { mc.join(",") })); impl_changed = None;
+        } else if choice < 82 {
+            let did = mgr.undo_blocking(); n_undo += 1; script.push(format!("undo -> {}", did));
+            resp = model.ask(&format!("U undo {}", name)); impl_changed = Some(did);
+        } else {
+            let did = mgr.redo_blocking(); script.push(format!("redo -> {}", did));
+            resp = model.ask(&format!("U redo {}", name)); impl_changed = Some(did);
+        }
+        let mut want = format!("ok {} | u={} r={}", flat_content(&a.doc, &mut tab), mgr.undo_stack().len(), mgr.redo_stack().len());
+        if let Some(c) = impl_changed { want.push_str(&format!(" | changed={}", c as u8)); }
+        rep.add("model_steps_compared", 1);
+        if std::env::var("YV_DEBUG").is_ok() { eprintln!("{} => {}\n   store {}", script.last().unwrap(), want, internal_dump(&store_dump(&a.doc))); }
+        if resp != want {
+            rep.disagree(json!({"property": "C12", "class": "flat-undo-model-differs", "after": script.last().unwrap(), "step": step, "implementation": want, "model": resp, "script": script, "case": {"stream": 123, "index": index, "seed": seed}}));
+            break;
+        }
+    }
+    rep.evaluations += 1;
+    if n_undo > 0 { rep.nontrivial_case(&format!("c12flat:{}", index)); }
+}
+
 pub fn cases(tier: &str) -> u64 { if tier == "thorough" { 40000 } else { 3000 } }
 pub fn run_range(_tier: &str, seed: u64, lo: u64, hi: u64) -> Report {
     let trace = std::env::var("YV_TRACE").is_ok();
     let mut rep = Report::default();
+    let mut model = crate::model::Model::spawn();
     for ci in lo..hi {
         if let Ok(o) = std::env::var("YV_ONLY") { if o.parse::<u64>().ok() != Some(ci) { continue; } }
+        if std::env::var("YV_MODE").map(|m| m == "flat").unwrap_or(true) {
+            match catch(std::panic::AssertUnwindSafe(|| { let mut r2 = Report::default(); run_flat_case(seed, ci, &mut r2, &mut model); r2 })) {
+                Ok(r2) => rep.merge(r2),
+                Err(e) => { rep.evaluations += 1; model = crate::model::Model::spawn(); rep.fail(json!({"property": "C12", "class": "panic", "error": e, "case": {"stream": 123, "index": ci, "seed": seed}})); }
+            }
+        }
         for interference in [false, true] {
             if trace { eprintln!("case {} {}", ci, interference); }
             if let Ok(o) = std::env::var("YV_MODE") { if (o == "interference") != interference { continue; } }
